@@ -253,6 +253,7 @@ func (t *Table) Delete(path *Path) {
 			}
 			if len(routesNow) < len(routes) {
 				t.routes[targetKey] = routesNow
+				_ = t.store.Put(routePrefix+target.String(), routesNow)
 			}
 		}
 	})
